@@ -346,15 +346,12 @@ Definition sim_state (g : ograph) (fuel : nat) (R : list state) (s : state) : bo
 Definition sim_check (g : ograph) (fuel : nat) (R : list state) (entry : name) : bool :=
   in_R R entry [] && forallb (sim_state g fuel R) R.
 
-Theorem sim_check_sound g fuel R entry :
-  sim_check g fuel R entry = true ->
-  forall ds, WTrace entry [] ds (fst (otrace g entry ds)) (snd (otrace g entry ds)).
+Lemma sim_states_sound g fuel R :
+  forallb (sim_state g fuel R) R = true ->
+  forall ds n e, Inv R n e -> WTrace n e ds (fst (otrace g n ds)) (snd (otrace g n ds)).
 Proof.
-  unfold sim_check. intros H. apply andb_true_iff in H as [Hinit Hall].
-  rewrite forallb_forall in Hall.
-  assert (Hmain : forall ds n e, Inv R n e ->
-            WTrace n e ds (fst (otrace g n ds)) (snd (otrace g n ds))).
-  { induction ds as [|d ds IH]; intros n e [a [Hin Hle]];
+  intros Hall. rewrite forallb_forall in Hall.
+  induction ds as [|d ds IH]; intros n e [a [Hin Hle]];
       specialize (Hall _ Hin); cbn [sim_state] in Hall;
       destruct (ofind g n) as [ob|] eqn:Hl; try discriminate;
       destruct (find h n) as [b|] eqn:Hb; try discriminate;
@@ -405,8 +402,15 @@ Proof.
              pose proof (srun_sound fuel c a e Hle) as Hs.
              destruct (srun fuel c a) as [m a'| |]; try discriminate.
              destruct Hs as [e' [Hs _]]. pose proof (SRun_det _ _ _ Hs _ Hstop). discriminate.
-          -- apply nth_error_None. apply nth_error_None in Hnth. lia. }
-  intros ds. apply Hmain. eapply in_R_inv; eauto. intros v z Hv. discriminate.
+          -- apply nth_error_None. apply nth_error_None in Hnth. lia.
+Qed.
+
+Theorem sim_check_sound g fuel R entry :
+  sim_check g fuel R entry = true ->
+  forall ds, WTrace entry [] ds (fst (otrace g entry ds)) (snd (otrace g entry ds)).
+Proof.
+  unfold sim_check. intros H. apply andb_true_iff in H as [Hinit Hall].
+  intros ds. apply (sim_states_sound g fuel R Hall). eapply in_R_inv; eauto. intros v z Hv. discriminate.
 Qed.
 
 (* C06: from every state of R, every successor runs to an original block of R
